@@ -66,6 +66,14 @@ def build_harness():
     try:
         env = dict(os.environ)
         env["CARGO_NET_OFFLINE"] = "true"
+        # inside a `vp run --with-repo` snapshot (a throw-away copy of /verif) the engine is built from the run's own copy of
+        # /repo, so that work going on in /repo itself cannot leak into a long background run
+        rr, rv = os.environ.get("VP_RUN_REPO"), os.environ.get("VP_RUN_VERIF")
+        if rr and rv and os.path.realpath(ROOT) == os.path.realpath(rv) and os.path.isdir(rr):
+            ct = os.path.join(HARNESS, "Cargo.toml")
+            txt = open(ct).read()
+            if 'path = "/repo"' in txt:
+                open(ct, "w").write(txt.replace('path = "/repo"', 'path = "%s"' % rr))
         t = time.time()
         p = subprocess.run(["cargo", "build", "--release", "--offline", "--quiet"], cwd=HARNESS, env=env,
                            stdout=subprocess.PIPE, stderr=subprocess.STDOUT, text=True)
